@@ -2,12 +2,18 @@
 package c19
 
 import (
+	"bytes"
+	"context"
 	"encoding/json"
 	"fmt"
+	"github.com/jamf/regatta/regattapb"
+	"iter"
 	"reflect"
 	"runtime"
 	"sort"
 	"strings"
+	"time"
+	"verif/harness/engx"
 
 	"github.com/jamf/regatta/storage/cluster"
 	"github.com/jamf/regatta/verifvp/vp"
@@ -474,6 +480,105 @@ func runConcurrent(r *evid.Run, alpha []upd, idx []int) {
 	r.Extra("concurrent_space_exhausted_within_bound", exhausted)
 }
 
+// (d) response headers ---------------------------------------------------------------------------
+
+// runHeaders: a real engine; a fixed client program over one table (reads, writes, a streamed read
+// pulled message by message with other calls in between); the node's view learns a newer leader at
+// every position of the program in turn. The terms in the headers the node hands out, in the order it
+// hands them out, never decrease.
+func runHeaders(r *evid.Run) {
+	eng, err := engx.Start(engx.Opts{})
+	if err != nil {
+		r.Inconcl.Add(1)
+		return
+	}
+	defer eng.Close()
+	tb, err := eng.CreateTable("hdr")
+	if err != nil || eng.WaitTable("hdr", 20*time.Second) != nil {
+		r.Inconcl.Add(1)
+		return
+	}
+	ctx := context.Background()
+	big := bytes.Repeat([]byte("h"), 1<<20)
+	for i := 0; i < 10; i++ {
+		c2, cancel := context.WithTimeout(ctx, 20*time.Second)
+		_, err := eng.Put(c2, &regattapb.PutRequest{Table: []byte("hdr"), Key: []byte(fmt.Sprintf("k%02d", i)), Value: big})
+		cancel()
+		if err != nil {
+			r.Inconcl.Add(1)
+			return
+		}
+	}
+	steps := []string{"range", "put", "stream:message-1", "range", "stream:message-2", "txn", "stream:message-3", "delete", "range"}
+	term := uint64(1000)
+	for pos := 0; pos <= len(steps); pos++ {
+		// a fresh, higher pair of terms for every run on this engine
+		term += 10
+		lo, hi := term, term+5
+		eng.Cluster.VerifUpdateView([]dragonboat.ShardView{{ShardID: tb.ClusterID, Replicas: map[uint64]string{1: "a", 3: "c"}, ConfigChangeIndex: term, LeaderID: 1, Term: lo}})
+		var next func() (*regattapb.RangeResponse, bool)
+		var stop func()
+		var last uint64
+		var lastWhat string
+		see := func(what string, h *regattapb.ResponseHeader) {
+			if h == nil {
+				return
+			}
+			r.Outcome(fmt.Sprint("hdr", pos, what, h.RaftTerm-term), true)
+			if h.RaftTerm < last {
+				r.Violate("headers/term-moved-backwards", fmt.Sprintf("the node learned leader 3 at term %d before step %d of %v; %s reported term %d leader %d after %s had reported term %d", hi, pos, steps, what, h.RaftTerm, h.RaftLeaderId, lastWhat, last), map[string]any{"kind": "headers", "position": pos})
+			}
+			if h.RaftTerm >= last {
+				last, lastWhat = h.RaftTerm, what
+			}
+		}
+		for i, st := range steps {
+			if i == pos {
+				eng.Cluster.VerifUpdateView([]dragonboat.ShardView{{ShardID: tb.ClusterID, LeaderID: 3, Term: hi}})
+			}
+			c2, cancel := context.WithTimeout(ctx, 20*time.Second)
+			switch {
+			case st == "range":
+				if rr, err := eng.Range(c2, &regattapb.RangeRequest{Table: []byte("hdr"), Key: []byte("k00")}); err == nil {
+					see(st, rr.Header)
+				}
+			case st == "put":
+				if rr, err := eng.Put(c2, &regattapb.PutRequest{Table: []byte("hdr"), Key: []byte("small"), Value: []byte("v")}); err == nil {
+					see(st, rr.Header)
+				}
+			case st == "txn":
+				if rr, err := eng.Txn(c2, &regattapb.TxnRequest{Table: []byte("hdr"), Success: []*regattapb.RequestOp{{Request: &regattapb.RequestOp_RequestRange{RequestRange: &regattapb.RequestOp_Range{Key: []byte("small")}}}}}); err == nil {
+					see(st, rr.Header)
+				}
+			case st == "delete":
+				if rr, err := eng.Delete(c2, &regattapb.DeleteRangeRequest{Table: []byte("hdr"), Key: []byte("small")}); err == nil {
+					see(st, rr.Header)
+				}
+			case strings.HasPrefix(st, "stream:"):
+				if next == nil {
+					seq, err := eng.IterateRange(ctx, &regattapb.RangeRequest{Table: []byte("hdr"), Key: []byte("k"), RangeEnd: []byte("l")})
+					if err != nil {
+						cancel()
+						continue
+					}
+					next, stop = iter.Pull((iter.Seq[*regattapb.RangeResponse])(seq))
+				}
+				if m, ok := next(); ok {
+					see(st, m.Header)
+				}
+			}
+			cancel()
+		}
+		if pos == len(steps) {
+			eng.Cluster.VerifUpdateView([]dragonboat.ShardView{{ShardID: tb.ClusterID, LeaderID: 3, Term: hi}})
+		}
+		if stop != nil {
+			stop()
+		}
+		r.AddExtra("header_programs", 1)
+	}
+}
+
 func Run(r *evid.Run) {
 	r.Check = "c19"
 	alpha := alphabet()
@@ -481,7 +586,7 @@ func Run(r *evid.Run) {
 	if r.Thorough() {
 		depth = 5
 	}
-	r.Rule(fmt.Sprintf("(a) single node: every sequence (with repetition) of length 0..%d over %d updates consistent with a ground truth of terms 1..3 (one leader per term) and config indices 1..3 incl. no-leader and empty updates, fed to the real shardView one per call and all in one call; after every step the view must equal (leader of the highest leader-bearing term, membership of the highest config index) of the SET of updates delivered - hence order- and repetition-independent - and term/leader/config index never regress. (b) cluster: BFS over {node i observes a local Raft update (through the real toShardViewList/Cluster.Notify), node i gossips to node j (real delegate LocalState -> JSON -> MergeRemoteState), memberlist tells node i that a member left / joined / was updated (real Cluster.NotifyLeave/NotifyJoin/NotifyUpdate)} with a visited set on the tuple of complete views + local observations; same invariants per node against the set of causally delivered updates; agreement after all-pairs gossip from every new state. (c) concurrent callers: a view holding nothing or one update, two (thorough: also three) writers each calling the real update() with one update of a 5-update subset (all unordered combinations) next to a reader that looks twice: every interleaving at statement granularity (points before every statement of update and shardInfo) up to 2 preemptions (thorough: 4), the view's RWMutex made cooperative by the build overlay; the final view must be the expected one of the set and the reader never sees term/leader/config index regress. Non-trivial: sequence contains a leader-bearing update; distinct = distinct final views", depth, len(alpha)))
+	r.Rule(fmt.Sprintf("(a) single node: every sequence (with repetition) of length 0..%d over %d updates consistent with a ground truth of terms 1..3 (one leader per term) and config indices 1..3 incl. no-leader and empty updates, fed to the real shardView one per call and all in one call; after every step the view must equal (leader of the highest leader-bearing term, membership of the highest config index) of the SET of updates delivered - hence order- and repetition-independent - and term/leader/config index never regress. (b) cluster: BFS over {node i observes a local Raft update (through the real toShardViewList/Cluster.Notify), node i gossips to node j (real delegate LocalState -> JSON -> MergeRemoteState), memberlist tells node i that a member left / joined / was updated (real Cluster.NotifyLeave/NotifyJoin/NotifyUpdate)} with a visited set on the tuple of complete views + local observations; same invariants per node against the set of causally delivered updates; agreement after all-pairs gossip from every new state. (c) concurrent callers: a view holding nothing or one update, two (thorough: also three) writers each calling the real update() with one update of a 5-update subset (all unordered combinations) next to a reader that looks twice: every interleaving at statement granularity (points before every statement of update and shardInfo) up to 2 preemptions (thorough: 4), the view's RWMutex made cooperative by the build overlay; the final view must be the expected one of the set and the reader never sees term/leader/config index regress. (d) response headers of a real engine: a fixed client program (range, put, streamed read of three messages pulled with other calls in between, transaction, delete) while the node's view learns a newer leader before every step in turn: the terms in the headers, in the order they are handed out, never decrease. Non-trivial: sequence contains a leader-bearing update; distinct = distinct final views", depth, len(alpha)))
 	total := par.SeqCount(len(alpha), depth)
 	par.For(total, r.Expired, func(i int64) {
 		seq := par.SeqAt(len(alpha), depth, i)
@@ -518,6 +623,7 @@ func Run(r *evid.Run) {
 		runCluster(r, alpha, 3, 4, localAlpha)
 	}
 	runConcurrent(r, alpha, localAlpha)
+	runHeaders(r)
 	r.Sample(map[string]any{"single": []string{alpha[7].String(), alpha[1].String(), alpha[16].String()}, "cluster": []string{"node0 observes " + alpha[localAlpha[0]].String(), "node0 gossips to node1", "node1 observes " + alpha[localAlpha[3]].String()}})
 	r.Assume("ground truth has at most one leader per term (Raft) and one membership per configuration-change index; updates contradicting that are outside the property")
 	r.Assume("states = distinct tuples of complete per-node views (+ local observation); every transition executes the real update/merge code, so all traces are implementation traces")
